@@ -138,12 +138,33 @@ def c02(ctx):
     ctx.exhaustive = True
 
 
+def stage2_theorem(ctx):
+    """M: Stage1Core + the Stage2 machine (one pc value per label of unifiedMachine, scope stack, tape writes, NDJSON roots)
+    implement JsonText's verdict and Tape!TapeOf on every enumerated text; negative control: a machine that annotates the
+    opening word one too far must be refuted."""
+    bounds = {"struct": (6, 7), "nd": (6, 8), "num": (6, 8), "str": (4, 6), "atom": (5, 6)}
+    for name, (ql, tl) in bounds.items():
+        ctx.tlc("MC_Stage2_%s" % name, consts={"MaxLen": ql if quick(ctx) else tl}, label="two-stage algorithm = grammar + tape layout (%s)" % name, timeout=3000)
+    src = open(os.path.join(SPEC, "Stage2.tla")).read()
+    bad = src.replace("s2  == Annotate(s1, off[1], Loc(s1))", "s2  == Annotate(s1, off[1], Loc(s1) + 1)")
+    if bad == src:
+        raise Infra("stage2 negative control: pattern not found in Stage2.tla")
+    r = ctx.tlc("MC_Stage2_struct", consts={"MaxLen": 3}, files={"Stage2.tla": bad}, label="negative control (must be refuted)",
+                timeout=600, check=False, expect_violation=True)
+    if r["ok"] or not r["violated"]:
+        raise Infra("stage2 negative control: a machine with a wrong container pointer was not refuted -- MachineImplements is vacuous")
+
+
 @prop("C17")
 def c17(ctx):
-    ctx.rule = ("M: Tape!WellFormed is an invariant of Edit.tla on every reachable tape; G: the real tape after Parse/ParseND is compared "
+    ctx.rule = ("M: Tape!WellFormed is an invariant of Edit.tla on every reachable tape; Stage2.tla -- the tape-building machine (one pc "
+                "value per label of unifiedMachine, scope stack, pointer annotation, NDJSON root switching) run over Stage1Core's positions "
+                "yields exactly Tape!TapeOf(documents) and JsonText's verdict on every enumerated text of five alphabets (a machine with a "
+                "wrong pointer is refuted); G: the real tape after Parse/ParseND is compared "
                 "word for word (tags, container and root pointers, string flag/offset/length, number words) with Tape!TapeOf for every "
                 "document of the document sets in both string modes and on both kernels; deserialized tapes are compared in C11. "
                 "Non-trivial = tape longer than 6 words.")
+    stage2_theorem(ctx)
     edit_replay(ctx, "parse_q" if quick(ctx) else "parse_t", "C17")
     edit_replay(ctx, "del_q", "C17")   # detape aspect: deserialized edited tapes
     ctx.exhaustive = True
